@@ -517,7 +517,11 @@ def r3(ctx):
         a0, a1 = [x for x in z.iter.args]
         def head(x):
             return isinstance(x, ast.Subscript) and isinstance(x.slice, ast.Slice) and x.slice.lower is None and x.slice.step is None and x.slice.upper is not None and T(x.slice.upper) in HALF
-        ok = srt and head(a0) and U(a0.value) == PL and head(a1) and U(a1.value).replace(" ", "") in (f"list(reversed({PL}))", f"{PL}[::-1]")
+        REV = (f"list(reversed({PL}))", f"{PL}[::-1]", f"reversed({PL})")
+        # zip stops at the shorter operand: it is enough that one of the two is cut to half the list
+        small_ok = (head(a0) and U(a0.value) == PL) or U(a0) == PL
+        large_ok = (head(a1) and U(a1.value).replace(" ", "") in REV[:2]) or U(a1).replace(" ", "") in REV
+        ok = srt and small_ok and large_ok and (head(a0) or head(a1))
         mm = [c for c in calls(z, tail="merge")]
         sm, bg = [U(t) for t in z.target.elts]
         ok = ok and len(mm) == 1 and {U(mm[0].func.value), U(mm[0].args[0])} == {sm, bg}
